@@ -293,7 +293,7 @@ impl deno_graph::source::NpmResolver for TableNpmResolver {
 
 /// with an npm resolver: every `npm:` specifier a followed dependency resolves to has an entry of
 /// its own (entries are keyed by the whole specifier, sub-path included), a package module or an error
-fn npm_resolver_part(report: &mut Report, rng: &mut Rng, n: usize) {
+pub fn npm_resolver_part(report: &mut Report, rng: &mut Rng, n: usize) {
   use deno_graph::source::MemoryLoader;
   const POOL: &[&str] = &[
     "npm:chalk@5",
@@ -353,6 +353,11 @@ fn npm_resolver_part(report: &mut Report, rng: &mut Rng, n: usize) {
             continue;
           }
           report.count("npm-specifiers-followed-with-a-resolver");
+          // a requirement the resolver rejects is an error entry, however it is imported
+          let rejected = resolver.failing.iter().any(|f| t.as_str().starts_with(&format!("npm:{}@", f)) || t.as_str().starts_with(&format!("npm:/{}@", f)) || t.as_str() == format!("npm:{}", f));
+          if rejected && !matches!(g.try_get(t), Err(_)) {
+            report.fail("oracle", "fault-without-error-entry", format!("{} imports {:?} ({}): the npm resolver rejects the package but the entry of {} is not an error", m.specifier(), text, if d.is_dynamic { "dynamic" } else { "static" }, t), desc.clone());
+          }
           match g.try_get(t) {
             Ok(Some(Module::Npm(_))) | Err(_) => {}
             Ok(Some(other)) => report.fail("oracle", "npm-specifier-entry-of-wrong-kind", format!("{} imports {:?}: the entry of {} is {:?}", m.specifier(), text, t, other.specifier()), desc.clone()),
